@@ -1,6 +1,6 @@
 SPECIFICATION Spec
 CONSTANTS
-  Keys <- K4
+  Keys <- K3
   Vals <- V2
   GCMode = TRUE
   MaxH = 3
